@@ -57,5 +57,32 @@ func TestSweep(t *testing.T) {
 			}
 		}
 	}
+	// one very long buffer pair per instantiation (block / parallel fast paths): a common prefix of
+	// 65536+k samples that is not a multiple of 4 or 8, destination longer than the source
+	huge := convtab.Entries
+	if !env.Thorough() { // quick: the float-to-float ones and one instantiation of each of the other functions
+		huge = nil
+		seen := map[string]bool{}
+		for _, e := range convtab.Entries {
+			if e.Fn == "FloatAsFloat" || !seen[e.Fn] {
+				huge = append(huge, e)
+				seen[e.Fn] = true
+			}
+		}
+	}
+	for i, e := range huge {
+		C := 1 + i%3
+		n := (65536 + 3*C + 1 + i%5) / C
+		var vals []kit.Val
+		if e.S.Kind == kit.Float {
+			vals = []kit.Val{kit.FV(0.5), kit.FV(-0.25), kit.FV(0.125), kit.FV(-1), kit.FV(0.75)}
+		} else {
+			hi := int64(1)<<(e.S.Bits-1) - 1
+			for _, a := range []int64{0, 1, -1, hi, -hi - 1, hi / 3, 77} {
+				vals = append(vals, convtab.AmpToCode(e.S, a))
+			}
+		}
+		Oracle.One(t, env, rec, "sweep", &Case{S: e.S.Name, D: e.D.Name, C: C, Src: Win{Kr: n + 2, A: 1, B: n + 1, Fix: i % 3}, Dst: Win{Kr: n + 9, A: 2, B: n + 7}, Vals: vals})
+	}
 	rec.Exhaustive("169 instantiations x C<=3 x all (source window, destination window) pairs over roots <=2(3) frames incl. partial last frames", true)
 }
